@@ -563,6 +563,9 @@ HT_POINTS = {
     'A': ([0.12341], 1000.0), 'B': ([0.12349], 1000.0), 'C': ([0.12351], 1000.0),
     'D': ([0.12341], 1200.0), 'E': ([0.12341], 1000.00004),
     'F': ([0.12341, 0.30001], 1000.0), 'G': ([0.12341, 0.30009], 1000.0), 'H': ([0.12341, 0.30001], 1200.0),
+    # A/I  same whole kelvin, temperature differs in the first decimal: different key at every precision s >= 1
+    #      (a key that truncates the temperature to whole kelvin serves A's value for I: seeded change s09a)
+    'I': ([0.12341], 1000.4),
 }
 
 
@@ -862,7 +865,7 @@ def run(ctx):
 
     # ---- hash table
     if quick:
-        base = {'points': ['A', 'B', 'C', 'D', 'F', 'G'], 'sens': [3, 4, 5, 7]}
+        base = {'points': ['A', 'B', 'C', 'D', 'F', 'G', 'I'], 'sens': [3, 4, 5, 7]}
         hdepth = 3
     else:
         base = {'points': list(HT_POINTS), 'sens': [1, 2, 3, 4, 5, 6, 7, 8]}
